@@ -11,6 +11,8 @@ META = {
     'level': 'other',
     'configs': {'quick': ['default'], 'thorough': ['default', 'norayon', 'default_nodebug']},
     'rules': {
+        'R6': 'no overlap or gap from the candidate loop (C01.R1, C01.R2): every candidate the stream delivers — own periodic images included — either clips the cell with the '
+              'perpendicular bisector or ends the loop through the termination test; a dropped candidate leaves that cell too large and the measures sum to more than the box',
         'R1': 'unit thickness: for each dimensionality and at BOTH entry points the box reaching the boundary constructor, the wrapped search and the stored '
               'anchor/width has, on every inactive axis, width == 1 exactly and anchor < 0 < anchor + width, and on every active axis the caller\'s values; the two entry points agree',
         'R2': 'start cell == box: the boundary constructor yields six planes (+-e_c through A_c resp. A_c + W_c) with inward normals; the eight initial vertices take one plane per axis, '
@@ -36,7 +38,7 @@ def run(ctx):
     for cfg in ctx.configs_used:
         F = ctx.facts(cfg)
         sfx = '' if cfg == 'default' else '@' + cfg
-        for fn in (r1, r2, r3, r4, r5):
+        for fn in (r1, r2, r3, r4, r5, r6):
             rule = 'C02.' + fn.__name__.upper()
             ctx.guarded(rule, 'evaluate' + sfx, lambda: fn(ctx, F, rule, sfx))
 
@@ -283,3 +285,9 @@ def r5(ctx, F, rule, sfx, only=None):
                   '<= 1: differences are formed before anything is multiplied', where(body), key_extra='degree:%d' % worst[0])
     if only is None:
         ctx.floor(rule, 'measure kernels analysed' + sfx, n, 10)
+
+
+def r6(ctx, F, rule, sfx):
+    from . import c01
+    c01.r1(ctx, F, rule, sfx)
+    c01.r2(ctx, F, rule, sfx)
